@@ -33,7 +33,13 @@ class ClassInfo:
         self.name = qual.split('.')[-1]
         self.methods = {}       # name -> FuncInfo
         self.attrs = {}         # class-level simple assignments name -> expr
-        self.base_names = [unparse(b) for b in node.bases]
+        self.base_names = []
+        for b in node.bases:
+            # class X(with_metaclass(Meta, Base1, Base2)): the bases are Base1, Base2
+            if isinstance(b, ast.Call) and isinstance(b.func, ast.Name) and 'metaclass' in b.func.id and len(b.args) >= 2:
+                self.base_names.extend(unparse(x) for x in b.args[1:])
+            else:
+                self.base_names.append(unparse(b))
         self.file = 'bisturi/%s.py' % module
 
     def __repr__(self):
